@@ -205,7 +205,7 @@ def gen_text(rng, lname):
     else:
         lines = hdr + data
         rng.shuffle(lines)                               # any order
-    if rng.random() < 0.1:
+    if rng.random() < 0.04:
         lines = [rng.choice(["", " ", "\t"]) + l + rng.choice(["", " ", "\r"]) for l in lines]
     return [l for l in lines if _sjis_ok(l)]
 
